@@ -185,7 +185,7 @@ Print Assumptions C14_reverse_loops.
 Theorem C14_known_findings_refuted : forallb refutes refutation_witnesses = true.
 Proof. exact all_refuted. Qed.
 Print Assumptions C14_known_findings_refuted.
-Theorem C14_test_not_refuted : refutes w_member_test_not = true /\ refutes w_subst_test_not = true /\ refutes w_setdiff_test_not = true.
+Theorem C14_test_not_refuted : refutes w_member_test_not = true.
 Proof. exact test_not_refuted. Qed.
 Print Assumptions C14_test_not_refuted.
 Theorem C14_if_not_missing_refuted : refutes w_remove_if_not = true /\ refutes w_find_if_not = true /\
@@ -210,6 +210,13 @@ Print Assumptions C14_remove_duplicates_refuted.
 Theorem C14_repaired_witnesses : forallb repaired_ok repaired_witnesses = true.
 Proof. exact repaired_all. Qed.
 Print Assumptions C14_repaired_witnesses.
+
+(* set-difference is specified as a relation: its repaired :test-not witness, (set-difference '(1 2) '(2)
+   :test-not 'eql) => (2), is inside the guard and the modelled result passes the checker of (4) *)
+Theorem C14_set_difference_test_not_repaired :
+  in_domain w_setdiff_test_not = true /\ m_call w_setdiff_test_not = Some (RSeq [2]) /\ spec_ok w_setdiff_test_not (RSeq [2]) = true.
+Proof. exact setdiff_test_not_repaired. Qed.
+Print Assumptions C14_set_difference_test_not_repaired.
 
 (* (7) the guard is satisfiable with every keyword in play and non-trivial results *)
 Theorem C14_guard_nonvacuous : forallb in_domain ex_calls = true /\
